@@ -5,6 +5,7 @@ import (
 	"errors"
 	"fmt"
 	"net"
+	"runtime"
 	"strconv"
 	"strings"
 	"sync"
@@ -513,6 +514,74 @@ func c17(c *core.Ctx) {
 		}
 		c17CheckDial(c, u, true, parsed[i])
 		c.Distinct(gen.HashString("dial" + parsed[i]))
+	})
+	// two secure dials from ONE DialConfig, the second issued before the first connection's handshake has started
+	// (single P: the reader goroutine of the first client cannot run until this goroutine yields): each ClientHello
+	// must carry its own host as server name
+	c.SectionSerial("dial-shared-config", 6, func(i int64, _ *gen.Rand) {
+		pairs := [][2]string{
+			{"stuns:a.example.org", "turns:b.example.net?transport=tcp"},
+			{"turns:b.example.net:443?transport=tcp", "stuns:a.example.org:5349"},
+			{"stuns:a.example.org", "stuns:c.example.com"},
+		}
+		pair := pairs[int(i)%len(pairs)]
+		c.Eval(1)
+		fn := &fakeNet{}
+		cfg := &stun.DialConfig{Net: fn}
+		cfg.TLSConfig.InsecureSkipVerify = true //nolint:gosec
+		ua, errA := stun.ParseURI(pair[0])
+		ub, errB := stun.ParseURI(pair[1])
+		if errA != nil || errB != nil {
+			c.Violate("valid-rejected", "valid-rejected", map[string]interface{}{"inputs": pair})
+
+			return
+		}
+		old := runtime.GOMAXPROCS(1)
+		ca, e1 := stun.DialURI(ua, cfg)
+		cb, e2 := stun.DialURI(ub, cfg)
+		runtime.GOMAXPROCS(old)
+		if e1 != nil || e2 != nil {
+			c.Violate("dial-failed", "dial-failed", map[string]interface{}{"inputs": pair, "errors": fmt.Sprint(e1, e2)})
+
+			return
+		}
+		fn.mu.Lock()
+		conns := append([]*fakeConn(nil), fn.dials...)
+		fn.mu.Unlock()
+		ok := len(conns) == 2
+		for k := 0; ok && k < 2; k++ {
+			select {
+			case <-conns[k].wrote:
+			case <-time.After(10 * time.Second):
+				ok = false
+			}
+		}
+		_ = ca.Close()
+		_ = cb.Close()
+		if !ok {
+			c.Inconclusive(1)
+
+			return
+		}
+		for k, u := range []*stun.URI{ua, ub} {
+			var all []byte
+			for _, w := range conns[k].allWrites() {
+				all = append(all, w...)
+			}
+			other := []*stun.URI{ub, ua}[k]
+			if !bytes.Contains(all, []byte(u.Host)) || bytes.Contains(all, []byte(other.Host)) {
+				c.Violate("wrong-server-name", "wrong-server-name", map[string]interface{}{
+					"dialled": pair, "connection": k, "expected_server_name": u.Host, "hello_contains_other_host": bytes.Contains(all, []byte(other.Host)),
+				})
+
+				return
+			}
+		}
+		if cfg.TLSConfig.ServerName != "" {
+			c.Count("caller_config_server_name_modified", 1)
+		}
+		c.Count("shared_config_pairs", 1)
+		c.Distinct(gen.HashString("shared" + pair[0] + pair[1]))
 	})
 	// ... and all 5 x 3 hand-made combinations
 	c.SectionSerial("dial-handmade", 15*2, func(i int64, _ *gen.Rand) {
